@@ -29,6 +29,7 @@ ALLOW_TRUSTED = [
     'assume_specification std::mem::replace',
     'assume_specification std::option::Option::<T>::map_or',
     'assume_specification std::rc::Rc::<T,A>::make_mut',
+    'assume_specification std::rc::Rc::<T,A>::ptr_eq',
     'assume_specification std::rc::Rc::<T,A>::unwrap_or_clone',
     'external_body fn apply_mappings',
     'external_body fn lemma_rc_cloned<T>',
